@@ -284,23 +284,40 @@ theorem txt_chunking (p : PCfg) (ctx : Ctx) (b : List PStr) (x y : PStr) :
     `C05-doctype-newline-accumulates`. Explicit and decidable (`dstableL`, Proofs/ReparseIdem.lean). -/
 abbrev DoctypeStable (p : PCfg) (ds : List Node) : Prop := dstableL p (ctxOf p [rootFrame]) false ds = true
 
-/-- the attribute normalisation is idempotent at every element (decidable) -/
-abbrev AttrStable (p : PCfg) (f : Fmt) (ds : List Node) : Prop := attrStableL p f ds = true
+/-- the hypotheses on the builder configuration: string containers are text classes, the newline is in ASCII_SPACES,
+    the space is a `\\s` character — all true of the live configuration (`live_config_ok`) -/
+abbrev ConfigOK (p : PCfg) : Prop :=
+  contOK p = true ∧ p.asciiSpaces.contains 10 = true ∧ p.reSpace.contains 32 = true
+
+theorem live_config_ok : ConfigOK livePCfg := by decide
+
+/-- The attribute part, for **every** attribute list (duplicate keys, `None`, list values, any order), tag name and
+    formatter: sorted by key, folded as a dict, `None` → `""`, multi-valued ones split — and doing it again changes
+    nothing (`sortAttrs` leaves strictly sorted keys alone; distinct keys are not folded;
+    `findall(" ".join(findall(v))) = findall(v)`). -/
+theorem normAttrs_idem (p : PCfg) (h32 : p.reSpace.contains 32 = true) (f : Fmt) (nm : PStr) (a : List (PStr × AVal)) :
+    normAttrs p f nm (normAttrs p f nm a) = normAttrs p f nm a :=
+  BS.Render.normAttrs_idem p h32 f nm a
+
+example : normAttrs livePCfg minimalHtml (ofS "a")
+    [(ofS "rel", .str (ofS " x  y ")), (ofS "id", .none), (ofS "class", .list [ofS "p q", ofS "r"]), (ofS "id", .str (ofS "z"))] =
+    [(ofS "class", .list [ofS "p", ofS "q", ofS "r"]), (ofS "id", .str []), (ofS "rel", .list [ofS "x", ofS "y"])] := by decide
 
 /-- **A second round trip changes nothing.** For every forest — representable or not —, every formatter and every
-    builder configuration whose string containers are text classes and whose ASCII_SPACES contain the newline: if the
-    forest is `DoctypeStable`, the documented normal form is a fixpoint of the normalisation. Proof: the second
-    normalisation is run in lockstep with the first (`reabsorbL`): the text node the first pass flushes is taken up
-    unchanged by the second, special strings and elements are re-read as themselves, and the newline a doctype
-    leaves behind meets exactly the `"\n"` it produced the first time. Without `DoctypeStable` the statement is false
-    (`doctype_text_not_fixpoint`). -/
-theorem normalise_idem (p : PCfg) (f : Fmt) (hc : contOK p = true) (h10 : p.asciiSpaces.contains 10 = true)
-    (ds : List Node) (hs : DoctypeStable p ds) (ha : AttrStable p f ds) :
+    builder configuration satisfying `ConfigOK`: if the forest is `DoctypeStable`, the documented normal form is a
+    fixpoint of the normalisation. Proof: the second normalisation is run in lockstep with the first (`reabsorbL`):
+    the text node the first pass flushes is taken up unchanged by the second, special strings and elements are re-read
+    as themselves (attributes by `normAttrs_idem`), and the newline a doctype leaves behind meets exactly the `"\n"`
+    it produced the first time. Without `DoctypeStable` the statement is false (`doctype_text_not_fixpoint`): that
+    hypothesis is the exact shape of known finding `C05-doctype-newline-accumulates`, not a gap of the proof. -/
+theorem normalise_idem (p : PCfg) (f : Fmt) (hp : ConfigOK p) (ds : List Node) (hs : DoctypeStable p ds) :
     normaliseL p f (normaliseL p f ds) = normaliseL p f ds :=
-  normaliseL_idem p f hc h10 ds hs ha
+  normaliseL_idem_all p f hp.1 hp.2.1 hp.2.2 ds hs
 
-/-- the live configuration satisfies the two hypotheses on the configuration -/
-theorem live_config_ok : contOK livePCfg = true ∧ livePCfg.asciiSpaces.contains 10 = true := by decide
+/-- in particular: every forest without a doctype, under the live configuration and any formatter -/
+theorem normalise_idem_live_no_doctype (f : Fmt) (ds : List Node) (h : DoctypeStable livePCfg ds) :
+    normaliseL livePCfg f (normaliseL livePCfg f ds) = normaliseL livePCfg f ds :=
+  normalise_idem livePCfg f live_config_ok ds h
 
 /-- doctype followed by whitespace and an element, text to merge, a `<pre>`, special strings, multi-valued attribute -/
 def demo2 : List Node :=
@@ -310,21 +327,19 @@ def demo2 : List Node :=
       .tag (tg "pre") [.str .navigable (ofS " \n ")], .str .comment (ofS " "), .str .navigable (ofS " ")],
    .str .xmlpi (ofS "x y"), .str .declaration (ofS "if IE")]
 
-example : DoctypeStable livePCfg demo2 ∧ AttrStable livePCfg minimalHtml demo2 ∧ Representable livePCfg minimalHtml demo2 := by
-  decide
+example : DoctypeStable livePCfg demo2 ∧ Representable livePCfg minimalHtml demo2 := by decide
 example : normaliseL livePCfg minimalHtml (normaliseL livePCfg minimalHtml demo2) = normaliseL livePCfg minimalHtml demo2 :=
-  normalise_idem _ _ live_config_ok.1 live_config_ok.2 _ (by decide) (by decide)
-/-- the witness of the refutation is excluded by `DoctypeStable`, and only by it -/
-example : ¬ DoctypeStable livePCfg [.str .doctype (ofS "html"), .str .navigable (ofS "x")] ∧
-    AttrStable livePCfg minimalHtml [.str .doctype (ofS "html"), .str .navigable (ofS "x")] := by decide
+  normalise_idem _ _ live_config_ok _ (by decide)
+/-- the witness of the refutation is excluded by `DoctypeStable` -/
+example : ¬ DoctypeStable livePCfg [.str .doctype (ofS "html"), .str .navigable (ofS "x")] := by decide
 
 /-- **Parse-then-render is idempotent**, at the event level: for every representable, doctype-stable forest whose
     normal form is representable again, the second re-parse builds the same forest as the first. -/
-theorem second_roundtrip_fixpoint (p : PCfg) (f : Fmt) (hc : contOK p = true) (h10 : p.asciiSpaces.contains 10 = true)
+theorem second_roundtrip_fixpoint (p : PCfg) (f : Fmt) (hp : ConfigOK p)
     (ds : List Node) (h : Representable p f ds) (h2 : Representable p f (normaliseL p f ds))
-    (hs : DoctypeStable p ds) (ha : AttrStable p f ds) :
+    (hs : DoctypeStable p ds) :
     build p (emitRL f (build p (emitRL f ds))) = build p (emitRL f ds) :=
-  (second_roundtrip_fixpoint_iff p f ds h h2).mpr (normalise_idem p f hc h10 ds hs ha)
+  (second_roundtrip_fixpoint_iff p f ds h h2).mpr (normalise_idem p f hp ds hs)
 
 example : Representable livePCfg minimalHtml (normaliseL livePCfg minimalHtml demo2) := by decide
 
